@@ -29,43 +29,56 @@ class Variant:
 
 
 def apply_unified(diff: str, source) -> dict[str, str]:
-    """apply a unified diff in memory; `source(rel)` gives the current text.  Raises ValueError
-    when a hunk's context does not match (the tree has moved on)."""
-    out: dict[str, str] = {}
-    rel = None
-    lines: list[str] = []
-    res: list[str] = []
-    pos = 0
-
-    def flush():
-        nonlocal rel
-        if rel is not None:
-            res.extend(lines[pos:])
-            out[rel] = ''.join(res)
-        rel = None
-    it = iter(diff.splitlines(keepends=True))
-    for ln in it:
+    """apply a unified diff in memory; `source(rel)` gives the current text.  A hunk is placed where
+    its context and removed lines match exactly, searched outwards from the stated line (later fixes
+    to the same file move hunks by a few lines).  Raises ValueError when a hunk matches nowhere (the
+    tree has moved on) or in more than one place at the same distance."""
+    files: list[tuple[str, list[tuple[int, list[str]]]]] = []
+    cur = None
+    for ln in diff.splitlines(keepends=True):
         if ln.startswith('+++ b/'):
-            flush()
-            rel = ln[6:].strip()
-            lines = source(rel).splitlines(keepends=True)
-            res = []
-            pos = 0
-        elif ln.startswith('@@') and rel is not None:
-            start = int(ln.split()[1].split(',')[0][1:])
-            res.extend(lines[pos:start - 1])
-            pos = start - 1
-        elif rel is not None and ln[:1] in (' ', '-', '+') and not ln.startswith(('--- ', '+++ ')):
-            body = ln[1:]
-            if ln[0] == '+':
-                res.append(body)
-            else:
-                if pos >= len(lines) or lines[pos].rstrip('\n') != body.rstrip('\n'):
-                    raise ValueError(f'{rel}:{pos + 1}: context does not match')
-                if ln[0] == ' ':
-                    res.append(lines[pos])
-                pos += 1
-    flush()
+            cur = (ln[6:].strip(), [])
+            files.append(cur)
+        elif ln.startswith('@@') and cur is not None:
+            cur[1].append((int(ln.split()[1].split(',')[0][1:]), []))
+        elif cur is not None and cur[1] and ln[:1] in (' ', '-', '+') and not ln.startswith(('--- ', '+++ ')):
+            cur[1][-1][1].append(ln)
+        elif ln.startswith('diff --git'):
+            cur = None
+    out: dict[str, str] = {}
+    for rel, hunks in files:
+        lines = source(rel).splitlines(keepends=True)
+        res: list[str] = []
+        pos = 0
+        shift = 0
+        for start, body in hunks:
+            old = [x[1:] for x in body if x[0] in ' -']
+            want = max(pos, start - 1 + shift)
+
+            def matches(at: int) -> bool:
+                return at >= pos and at + len(old) <= len(lines) and all(
+                    lines[at + i].rstrip('\n') == old[i].rstrip('\n') for i in range(len(old)))
+            at = None
+            for d in range(0, 400):
+                hits = [c for c in ({want - d, want + d}) if matches(c)]
+                if hits:
+                    at = min(hits)
+                    break
+            if at is None:
+                raise ValueError(f'{rel}:{start}: context does not match')
+            shift = at - (start - 1)
+            res.extend(lines[pos:at])
+            i = at
+            for x in body:
+                if x[0] == '+':
+                    res.append(x[1:])
+                else:
+                    if x[0] == ' ':
+                        res.append(lines[i])
+                    i += 1
+            pos = i
+        res.extend(lines[pos:])
+        out[rel] = ''.join(res)
     return out
 
 
